@@ -54,7 +54,61 @@ class PrivDevice(CliDevice):
         return self._frame("% Bad passwords")
 
 
+class InjectedFault(OSError):
+    """an exception injected into a transport read / write (kind "exc")"""
+
+
 class _TimeoutMixin:
+    """+ one fault INSIDE a privilege change that leaves the connection usable.  `fault` = dict(k, point, kind, keep):
+      k      the fault hits the k-th navigation line (a line of `navset`: the table's escalate / deescalate commands) of the history
+      point  "before_write" (nothing reaches the device) | "after_line" (the line is typed, the return is not) |
+             "after_return" (the line is entered: the device completes the change, its answer is not read)
+      kind   "timeout_keep" (ScrapliTimeout as with Settings.NO_TERMINATE_ON_TIMEOUT: the transport stays open) |
+             "cancel" (asyncio.CancelledError: the task was cancelled, e.g. asyncio.wait_for) | "exc" (an injected exception)
+      keep   whether what the device printed stays in the read buffer for the next operation (it arrives late) or is lost"""
+    fault = None
+    navset = frozenset()
+    fault_done = False
+    _nav_seen = 0
+    _arm = None           # None | "return" (arm at the next write) | "read" (the next read raises)
+
+    def _fault_exc(self):
+        import asyncio
+        k = self.fault["kind"]
+        if k == "timeout_keep":
+            return ScrapliTimeout("timed out (injected; NO_TERMINATE_ON_TIMEOUT: connection kept)")
+        if k == "cancel":
+            return asyncio.CancelledError()
+        return InjectedFault("injected fault")
+
+    def _fire(self):
+        self.fault_done, self._arm = True, None
+        self.trace.append(("fault", self.fault["point"], self.fault["kind"]))
+        if not self.fault.get("keep"):
+            self.buf.clear()
+        raise self._fault_exc()
+
+    def _do_write(self, data: bytes):
+        f = self.fault
+        if f and not self.fault_done:
+            if self._arm == "return":
+                super()._do_write(data)        # the return: the device executes the line
+                self._arm = "read"
+                return
+            if data.decode("utf-8", "replace") in self.navset:
+                self._nav_seen += 1
+                if self._nav_seen == f["k"]:
+                    if f["point"] == "before_write":
+                        self._fire()
+                    super()._do_write(data)
+                    self._arm = "read" if f["point"] == "after_line" else "return"
+                    return
+        super()._do_write(data)
+
+    def _maybe_fault_read(self):
+        if self.fault and not self.fault_done and self._arm == "read":
+            self._fire()
+
     def _do_open(self):
         self.buf.clear()          # a new session: nothing of the previous one is left on the wire
         super()._do_open()
@@ -71,6 +125,7 @@ class _TimeoutMixin:
 class TimeoutSimTransport(_TimeoutMixin, SimTransport):
     def read(self) -> bytes:
         self._pre_read()
+        self._maybe_fault_read()
         if not self.buf:
             self._empty()
         return self._take()
@@ -79,6 +134,7 @@ class TimeoutSimTransport(_TimeoutMixin, SimTransport):
 class AsyncTimeoutSimTransport(_TimeoutMixin, AsyncSimTransport):
     async def read(self) -> bytes:
         self._pre_read()
+        self._maybe_fault_read()
         if not self.buf:
             self._empty()
         return self._take()
@@ -89,7 +145,8 @@ class AsyncTimeoutSimTransport(_TimeoutMixin, AsyncSimTransport):
 #   ("g1", stop, level, text) send_config (one string, split on newlines by scrapli)
 #   ("A", level) acquire_priv | ("I", level, [lines]) send_interactive | ("R", name) register session | ("g", bool)
 EXC = {"ScrapliPrivilegeError": "priv", "ScrapliAuthenticationFailed": "auth", "ScrapliTimeout": "timeout",
-       "ScrapliValueError": "value", "IndexError": "index", "KeyError": "key", "ScrapliConnectionNotOpened": "conn"}
+       "ScrapliValueError": "value", "IndexError": "index", "KeyError": "key", "ScrapliConnectionNotOpened": "conn",
+       "CancelledError": "cancelled", "InjectedFault": "injected"}
 
 
 def _call(conn, op):
@@ -145,7 +202,9 @@ def _instrument(conn, bound):
         return len(st["probe"]) - 1
 
     def seen(i, prompt):
-        st["probe"][i] = st["probe"][i] + (prompt,)      # the prompt string this round read
+        # the prompt string this round read, and the device's level once it had answered (a typed-but-not-entered line left over from
+        # an abandoned operation is entered by this very return)
+        st["probe"][i] = st["probe"][i] + (prompt, dev.mode_name())
     if conn.__class__.__name__.startswith("Async"):
         async def counted():
             i = note()
@@ -173,7 +232,7 @@ def _mk(platform, dev, stack, secondary, kw):
     return make_conn(platform, dev, stack=stack, transport_cls=tcls, auth_secondary=secondary, **kw)
 
 
-def run_history(platform, dev, ops, secondary="", stack="sync", round_bound=400, hooks=False, **kw):
+def run_history(platform, dev, ops, secondary="", stack="sync", round_bound=400, hooks=False, fault=None, navset=(), **kw):
     """-> (records, snapshots, transport, conn); one record per op.  hooks=True: the platform's real on_open / on_close hooks
     stay installed and the connection is NOT opened here — the history opens, closes and re-opens it (ops "O" / "X")."""
     assert stack == "sync"
@@ -182,10 +241,12 @@ def run_history(platform, dev, ops, secondary="", stack="sync", round_bound=400,
     else:
         conn, t = _mk(platform, dev, stack, secondary, dict(kw, on_open=lambda c: None))
         conn.open()
+    t.fault, t.navset = fault, frozenset(navset)
     st = _instrument(conn, round_bound)
     recs, snaps = [], [snapshot(conn)]
     for op in ops:
         exc = None
+        fired = t.fault_done
         try:
             _call(conn, op)
         except HarnessAbort as e:
@@ -194,14 +255,14 @@ def run_history(platform, dev, ops, secondary="", stack="sync", round_bound=400,
             break
         except Exception as e:   # noqa: BLE001 - every exception class is an observable
             exc = e
-        recs.append(_record(conn, dev, st, exc))
+        recs.append(dict(_record(conn, dev, st, exc), injected=t.fault_done and not fired))
         if op[0] == "R":
             snaps.append(snapshot(conn))
     conn._probe = st["probe"]
     return recs, snaps, t, conn
 
 
-async def arun_history(platform, dev, ops, secondary="", stack="async", round_bound=400, hooks=False, **kw):
+async def arun_history(platform, dev, ops, secondary="", stack="async", round_bound=400, hooks=False, fault=None, navset=(), **kw):
     async def noop(c):
         return None
     if hooks:
@@ -209,10 +270,13 @@ async def arun_history(platform, dev, ops, secondary="", stack="async", round_bo
     else:
         conn, t = _mk(platform, dev, "async", secondary, dict(kw, on_open=noop))
         await conn.open()
+    import asyncio
+    t.fault, t.navset = fault, frozenset(navset)
     st = _instrument(conn, round_bound)
     recs, snaps = [], [snapshot(conn)]
     for op in ops:
         exc = None
+        fired = t.fault_done
         try:
             r = _call(conn, op)
             if hasattr(r, "__await__"):
@@ -221,9 +285,11 @@ async def arun_history(platform, dev, ops, secondary="", stack="async", round_bo
             recs.append({"out": "LOOP", "belief": conn._current_priv_level.name, "rounds": st["rounds"],
                          "loglen": len(dev.exec_log), "mode": dev.mode_name()})
             break
+        except asyncio.CancelledError as e:     # the operation's task was cancelled (injected); the connection object lives on
+            exc = e
         except Exception as e:   # noqa: BLE001
             exc = e
-        recs.append(_record(conn, dev, st, exc))
+        recs.append(dict(_record(conn, dev, st, exc), injected=t.fault_done and not fired))
         if op[0] == "R":
             snaps.append(snapshot(conn))
     conn._probe = st["probe"]
